@@ -8,7 +8,7 @@ from common import VERIF
 from props.c08 import rand_handler
 from props.c12 import extract
 
-RULE = ("evaluator save_group_times and aggregator log_times chosen independently; subjects with a large almost perfectly segmented structure (values of the order 1e-5, written with an exponent); real evaluator -> real aggregator -> real statistics loader: 1-4 class groups with names over letters, digits, "
+RULE = ("make_statistic() before and after another writer (second aggregator object, forked process) appended to the file; write + load in a child interpreter with a non-UTF-8 locale and non-ASCII subject names; evaluator save_group_times and aggregator log_times chosen independently; subjects with a large almost perfectly segmented structure (values of the order 1e-5, written with an exponent); real evaluator -> real aggregator -> real statistics loader: 1-4 class groups with names over letters, digits, "
         "space, '-', '_', upper case; subject names over printable ASCII incl. tab-free punctuation, quotes, commas, "
         "'subject_name', leading '-'; metric selections (instance and global); results forced to NaN / inf / None / "
         "uncomputable through edge-case handlers and empty sides; several aggregators from one evaluator incl. "
@@ -143,6 +143,83 @@ def one_case(ctx, groups, cfg, gm, subjects, arrays, log_times, src, n_aggs=1, s
         shutil.rmtree(d, ignore_errors=True)
 
 
+def locale_loader(ctx, src):
+    """write and load in a process whose locale encoding is not UTF-8, with non-ASCII subject names: the loader must
+    return every subject under its own name with the values of the file"""
+    from props.c16 import locale_sessions
+    inp, out, want = locale_sessions(ctx, "C18", src)
+    if out is None:
+        return
+    if out["loaded"] is None:
+        ctx.violation(f"C18 violated under a non-UTF-8 locale: the statistics loader failed on the aggregator's own output ({sorted(set(out['errors']))})",
+                      inp, impl=out["errors"], key={"kind": "loader-fails"})
+        return
+    hdr = out["rows"][0]
+    for r in out["rows"][1:]:
+        vals = out["loaded"]["values"].get(r[0])
+        if vals is None:
+            ctx.violation(f"C18 violated under a non-UTF-8 locale: subject {r[0]!r} is in the file but the loader returns subjects {out['loaded']['subjects']}",
+                          inp, impl=out["loaded"]["subjects"], key={"kind": "roundtrip"})
+            return
+        for cell, h in zip(r[1:], hdr[1:]):
+            g, m = h.rsplit("-", 1)
+            got = vals[g][m]
+            try:
+                w = float(cell) if cell != "" else None
+            except ValueError:
+                w = None
+            if w is not None and (w != w or w in (float("inf"), float("-inf"))):
+                w = None
+            if not ((w is None and got is None) or (w is not None and got is not None and got == w)):
+                ctx.violation(f"C18 violated under a non-UTF-8 locale: {m} of subject {r[0]!r}: file holds {cell!r}, loader returns {got!r}", inp,
+                              key={"kind": "roundtrip"})
+                return
+
+
+def statistic_after_other_writer(ctx, k):
+    """make_statistic() on one aggregator, then another writer (a second aggregator object resuming the file, or a
+    forked process using the first) appends a subject, then make_statistic() again: it must reflect the file"""
+    import multiprocessing as mp
+    rng = ctx.rng
+    d = VERIF / ".work" / f"c18w_{os.getpid()}"
+    shutil.rmtree(d, ignore_errors=True)
+    d.mkdir(parents=True)
+    writer = rng.choice(["second-aggregator", "forked-process"])
+    inp = {"mode": "statistic-after-other-writer", "writer": writer, "src": f"otherwriter{k}"}
+    try:
+        cfg = E.mk_cfg("MATCHED", ["IOU", "DSC"])
+        arrs = []
+        for _ in range(3):
+            r = np.zeros((5, 6), np.uint8)
+            r[1:4, 1:4] = 1
+            p = r.copy()
+            p[1, rng.randint(1, 3)] = 0
+            arrs.append((p, r))
+        out = str(d / "cohort.tsv")
+        with quiet(), np.errstate(all="ignore"):
+            ev = impl.mk_evaluator(cfg)
+            a1 = Panoptica_Aggregator(ev, out)
+            a1.evaluate(arrs[0][0], arrs[0][1], "s1")
+            first = list(a1.make_statistic().subjectnames)
+            if writer == "second-aggregator":
+                a2 = Panoptica_Aggregator(impl.mk_evaluator(cfg), out)
+                a2.evaluate(arrs[1][0], arrs[1][1], "s2")
+            else:
+                pr = mp.get_context("fork").Process(target=lambda: a1.evaluate(arrs[1][0], arrs[1][1], "s2"))
+                pr.start()
+                pr.join(60)
+            second = list(a1.make_statistic().subjectnames)
+            a1.evaluate(arrs[2][0], arrs[2][1], "s3")
+            third = list(a1.make_statistic().subjectnames)
+        ctx.case(inp, True)
+        ctx.count("statistic_after_other_writer." + writer)
+        if sorted(first) != ["s1"] or sorted(second) != ["s1", "s2"] or sorted(third) != ["s1", "s2", "s3"]:
+            ctx.violation(f"C18 violated: after another writer ({writer}) appended subject 's2' to the output file, make_statistic() of the first aggregator knows "
+                          f"{second} (then {third}); the file holds s1, s2 (then s3)", inp, impl=[first, second, third], key={"kind": "stale-statistic"})
+    finally:
+        shutil.rmtree(d, ignore_errors=True)
+
+
 def rand_case(ctx, tag, i):
     rng = ctx.rng
     ng = rng.choice([0, 1, 2, 2, 3, 4])
@@ -250,6 +327,9 @@ def permuted_continuation(ctx, k):
 
 
 def run(ctx):
+    locale_loader(ctx, "locale")
+    for k in range(ctx.scale(4, 20)):
+        statistic_after_other_writer(ctx, k)
     for k in range(ctx.scale(4, 30)):
         permuted_continuation(ctx, k)
     for i in range(ctx.scale(200, 2500)):
@@ -263,6 +343,13 @@ def search(ctx):
 
 def replay(ctx, rec):
     i = rec["input"]
+    if str(i.get("mode", "")).startswith("child interpreter with LC_ALL=C"):
+        locale_loader(ctx, "replay")
+        return
+    if i.get("mode") == "statistic-after-other-writer":
+        for k in range(6):
+            statistic_after_other_writer(ctx, k)
+        return
     if i.get("history") == "permuted-continuation":
         for k in range(6):
             permuted_continuation(ctx, k)
